@@ -141,6 +141,27 @@ func init() {
 		}
 		return sb.String()
 	})
+	// codec viastamp <via text> <ip> <port>: decode a Via header, stamp received/rport on its FIRST entry the
+	// way handleRawMessage does, and re-encode: every other entry and parameter must come back untouched
+	vReg("codec viastamp", func(a []string) string {
+		v, err := ParseVia(unhx(a[0]))
+		if err != nil {
+			return "err"
+		}
+		p0, _ := v.GetParam(0)
+		p0.SetReceived(unhx(a[1]))
+		if p0.HasParam("rport") {
+			p0.SetParam("rport", a[2])
+		}
+		var sb strings.Builder
+		sb.WriteString("ok " + hx(v.String()) + " " + strconv.Itoa(v.Size()))
+		for i := 0; i < v.Size(); i++ {
+			p, _ := v.GetParam(i)
+			br, e1 := p.GetBranch()
+			sb.WriteString(" " + optHx(br, e1) + " " + kvList(p.Params))
+		}
+		return sb.String()
+	})
 	routeLike := func(n int, get func(i int) (*NameAddr, []KeyValue), enc string) string {
 		var sb strings.Builder
 		sb.WriteString("ok " + hx(enc) + " " + strconv.Itoa(n))
